@@ -408,8 +408,12 @@ def check_trunc_case(ctx, case):
 # one, so under a constant drive <H^2> and the variance must stay constant, and (sizes within dense reach) equal
 # <psi|H^2|psi> evaluated densely on the stored state.  (The H^2 operator of a chain of 8 needs bond dimension 13, of a
 # 4x4 lattice 41: it must not be compressed with the state's cap.)
-CAP_SPREAD = 5e-3       # relative spread of <H^2> / variance over the run; calibrated: unchanged tree <= see calibration
-CAP_DENSE = 1e-5        # |<H^2>_reported - <psi|H^2|psi>_dense| / scale^2 ; calibrated likewise
+# Oracles: (i) a cap that does not bind on the state changes NOTHING: energy, <H^2> and variance equal those of the run
+# with the default cap (same states) -- sharp for every size; (ii) up to 10 atoms they equal the dense contraction on the
+# stored state; (iii) <H^2> / variance constant over the run up to the TDVP projection error of these cases.
+CAP_DIFF = 1e-6         # |small-cap run - default-cap run| / max|<H^2>|     (unchanged tree: <= 1e-11, see calibration)
+CAP_DENSE = 1e-5        # |reported - dense| / scale^2                       (unchanged tree: <= 4e-9)
+CAP_SPREAD = 5e-2       # relative spread over the run                       (unchanged tree: <= 1.3e-3, TDVP error on lattices)
 
 
 def gen_cap_case(rng, tier_thorough):
@@ -462,9 +466,10 @@ def check_cap_case(ctx, case):
             return emu_mps.MPSBackend._run_from_sequence_data(D.to_sequence_data(prob), cfg)
 
     try:
+        # first pass with the default cap: the bond dimension the state really needs, and the reference series
+        res0 = run(None)
+        chi = max(res0.get_result("state", t).get_max_bond_dim() for t in et)
         if "max_bond_dim" not in case:
-            # first pass with the default cap measures the bond dimension the state really needs
-            chi = max(run(None).get_result("state", t).get_max_bond_dim() for t in et)
             if chi >= 16:
                 ctx.extra["cap_cases_skipped_entangled"] = ctx.extra.get("cap_cases_skipped_entangled", 0) + 1
                 return
@@ -483,6 +488,10 @@ def check_cap_case(ctx, case):
     binding = bond >= case["max_bond_dim"]
     ref2 = max(float(np.abs(E2).max()), 1.0)
     spread = max(float(E2.max() - E2.min()), float(V.max() - V.min())) / ref2
+    diff = 0.0
+    for tag, series in (("energy", E), ("energy_second_moment", E2), ("energy_variance", V)):
+        s0 = np.array([float(res0.get_result(tag, t)) for t in stored])
+        diff = max(diff, float(np.abs(series - s0).max()) / (ref2 if tag != "energy" else scale))
     dense_err = None
     if n <= 10 and not binding:
         H = dense_H(prob["omega"][0], prob["delta"][0], prob["phi"][0], prob["U"])
@@ -495,6 +504,7 @@ def check_cap_case(ctx, case):
     cal = ctx.extra.setdefault("calibration", {})
     if not binding:
         cal["mps-cap:relative spread of <H^2>/variance"] = max(cal.get("mps-cap:relative spread of <H^2>/variance", 0.0), spread)
+        cal["mps-cap:|small cap - default cap| (relative)"] = max(cal.get("mps-cap:|small cap - default cap| (relative)", 0.0), diff)
         if dense_err is not None:
             cal["mps-cap:|reported - dense| / scale^2"] = max(cal.get("mps-cap:|reported - dense| / scale^2", 0.0), dense_err)
     ctx.count_case({"kind": "cap", "shape": case["shape"], "n": n, "steps": prob["steps"], "max_bond_dim": case["max_bond_dim"],
@@ -504,6 +514,11 @@ def check_cap_case(ctx, case):
     hist[hk] = hist.get(hk, 0) + 1
     if binding:
         return     # the cap truncates the state: conservation is not asserted (see the truncation cases)
+    if diff > CAP_DIFF:
+        ctx.violation(f"emu-mps: energy / <H^2> / variance change by {diff:.3g} (relative, > {CAP_DIFF}) when max_bond_dim is lowered "
+                      f"to {case['max_bond_dim']} although the state only needs bond dimension {bond} (the cap must only act on the state)",
+                      {"case": _ser(case), "second_moment": E2.tolist(), "variance": V.tolist(),
+                       "finding_key": "second-moment-not-conserved-under-cap"})
     if spread > CAP_SPREAD:
         ctx.violation(f"emu-mps: <H^2> / variance vary by {spread:.3g} (relative, > {CAP_SPREAD}) under a constant noiseless drive "
                       f"with max_bond_dim={case['max_bond_dim']} although the state only needs bond dimension {bond}",
@@ -565,8 +580,8 @@ def run(ctx):
                 "every occupation lies in [0,1]; energy conservation is not asserted there (truncation changes <H>; the "
                 "drift is only recorded); non-trivial = the bond dimension cap is reached. Plus emu-mps runs with a SMALL max_bond_dim "
                 "(4..16) that does not bind on the state (chains of 8-16, 3x3 / 4x4 lattices, weakly entangling constant drive; "
-                "the cap is chosen above the bond dimension measured in a first pass): <H^2> and the variance constant over the "
-                "run and, up to 10 atoms, energy / <H^2> / variance equal to the dense contraction on the stored state")
+                "the cap is chosen above the bond dimension measured in a first pass with the default cap): energy, <H^2> and variance "
+                "identical to that first pass, constant over the run and, up to 10 atoms, energy / <H^2> / variance equal to the dense contraction on the stored state")
     ctx.trusted_base += ["C06_H_hermitian / mpo_hermitian for the Hermiticity of the two Hamiltonians",
                          "source pin + random-vector probe tie the Coq lemmas' operator shapes to the code"]
     ctx.assumptions += [
